@@ -3019,12 +3019,15 @@ PPL::Grid::wrap_assign(const Variables_Set& vars,
             return;
           }
           PPL_ASSERT(o == OVERFLOW_WRAPS);
-          // The value v_n for `x' is wrapped modulo the 'wrap_frequency'.
+          // The value v_n for `x' is wrapped modulo the 'wrap_frequency'
+          // into the range of the bounded integer type.
+          v_n -= min_value;
           v_n %= wrap_frequency;
-          // `v_n' is the value closest to 0 and may be negative.
-          if (r == UNSIGNED && v_n < 0) {
+          // The remainder has the sign of the dividend.
+          if (v_n < 0) {
             v_n += wrap_frequency;
           }
+          v_n += min_value;
           unconstrain(x);
           add_constraint(x == v_n);
         }
